@@ -334,6 +334,30 @@ def run(chk, facts, tier, only=None):
                 chk.bad("quoting-chain", f"anchor moved: {pr} (and ident_string is not evaluable: {sem_detail})")
             if not probs:
                 chk.ok("quoting-chain", "pp_text -> ident_string quotes iff !is_valid_as_id || is_keyword")
+        # definition names are printed bare (the positions below), so every producer of a definition name must stay inside the lexer's
+        # identifier alphabet.  Names from parsed programs were lexed as identifiers; names of exported Rust types are made by
+        # TypeName::get, whose per-character map is evaluated here on ASCII and non-ASCII letters, digits and punctuation.
+        from c11_util import Interp as _Interp, NotEvaluable as _NE2, RChar as _RChar
+        tn = c.fn(r"^candid::types::internal::TypeName::get$")
+        chk.analysed(tn["key"])
+        maps = [x for x in walk(tn["body"]) if x.get("k") == "mcall" and x["m"] == "map" and x.get("args") and x["args"][0].get("k") == "closure"
+                and "char" in str((x["args"][0].get("params") or [{}])[0].get("ty") or "")]
+        if len(maps) != 1:
+            raise AnchorMissing("TypeName::get: the per-character sanitising `.chars().map(|c| ..)` was not found")
+        try:
+            it_ = _Interp(c)
+            badc = None
+            for ch in "azAZ09_-<>:, .'\"éßöЖ日٣²ª\u00a0":
+                out_ = it_.apply(("closure", maps[0]["args"][0], {}), _RChar(ch))
+                if not (isinstance(out_, str) and len(out_) == 1 and re.fullmatch(r"[A-Za-z0-9_]", out_)) and badc is None:
+                    badc = (ch, out_)
+            chk.expect(badc is None, "export-name:ascii-identifier-alphabet",
+                       f"TypeName::get keeps the character {badc and badc[0]!r} (maps it to {badc and badc[1]!r}) in the name of an exported definition: "
+                       f"definition names are printed without quotes, and the lexer's identifiers are [A-Za-z_][A-Za-z0-9_]* — the exported .did "
+                       f"text would not parse", where=f"{tn['span']['file']}:{maps[0].get('ln')}",
+                       ok_detail="every sample character is kept only if it is in [A-Za-z0-9], otherwise replaced by `_`")
+        except _NE2 as e_:
+            raise AnchorMissing(f"TypeName::get: the sanitising closure is outside the evaluable fragment: {e_}")
         # names in the document: quoted through pp_text, or a type identifier at one of the known positions
         ALLOWED_RAW = {("pp_ty_inner", TI + "Var"), ("pp_class", TI + "Var"), ("pp_defs_plain", "closure"), ("pp_defs", "closure"),
                        ("pp_docs", "closure"), ("syntax::pp_ty", IT + "VarT"), ("syntax::pp_class", IT + "VarT"),
@@ -1020,3 +1044,5 @@ def run(chk, facts, tier, only=None):
         # names in a printed interface go through the same escape_text / ident_string / is_valid_as_id as names in printed values
         chk.include(c11, "C11.R1", "C12.R7", facts)
         chk.include(c11, "C11.R2", "C12.R8", facts)
+        import c15
+        chk.include(c15, "C15.R3", "C12.R9", facts)     # exported Rust types: the derive sorts fields by the id of the label it emits
